@@ -60,7 +60,7 @@ func minimise(bin, prop string, caseJSON []byte, clause string) []byte {
 	g, s := topList("faults")
 	shrinkList(g, s, 0)
 	// 2. script steps / top-level operation lists
-	for _, key := range []string{"steps", "ops", "battery", "clients"} {
+	for _, key := range []string{"steps", "ops", "battery", "clients", "cleaner"} {
 		if _, ok := c[key].([]any); ok {
 			g, s := topList(key)
 			keep := 0
@@ -68,6 +68,26 @@ func minimise(bin, prop string, caseJSON []byte, clause string) []byte {
 				keep = 1
 			}
 			shrinkList(g, s, keep)
+		}
+	}
+	// 2b. operations of top-level clients (engines without a step script)
+	if cls, ok := c["clients"].([]any); ok {
+		for ci := range cls {
+			if _, isList := cls[ci].([]any); !isList {
+				continue
+			}
+			shrinkList(func(m map[string]any) []any {
+				l, _ := m["clients"].([]any)
+				if ci >= len(l) {
+					return nil
+				}
+				x, _ := l[ci].([]any)
+				return x
+			}, func(m map[string]any, l []any) {
+				if all, _ := m["clients"].([]any); ci < len(all) {
+					all[ci] = l
+				}
+			}, 0)
 		}
 	}
 	// 3. clients and their operations, documents inside bulks
